@@ -117,8 +117,24 @@ class Impl:
             sh = (np.arange(6) > 2).astype(float)
             mats = [m * (1.0 + np.outer(sh, sh)) for m in mats]
         try:
-            out = self.fn(np.array(mats))
+            from harness.common import represent
+
+            self.ncall = getattr(self, "ncall", 0) + 1
+            # the batch in one of several in-memory representations of the same values
+            batch = represent(np.array(mats), ("c", "fortran", "strided", "readonly")[self.ncall % 4]) if self.mutant is None else np.array(mats)
+            out = self.fn(batch)
             res = [{k: np.array(out[k][i], dtype=float) for k in KEYS} for i in range(len(mats))]
+            if self.mutant is None and len(mats) > 1:
+                # the decomposition of a matrix is a function of that matrix: a sample of the batch is decomposed
+                # alone as well and must give the same answer (axis up to sign)
+                for i in range(self.ncall % 5, len(mats), 5):
+                    o = self.fn(np.array([mats[i]]))
+                    one = {k: np.array(o[k][0], dtype=float) for k in KEYS}
+                    same = all(np.allclose(one[k], res[i][k], rtol=1e-9, atol=1e-9, equal_nan=True) for k in KEYS if k != "hexagonal_axis")
+                    a, b = one["hexagonal_axis"], res[i]["hexagonal_axis"]
+                    same = same and (np.allclose(a, b, atol=1e-9, equal_nan=True) or np.allclose(a, -b, atol=1e-9, equal_nan=True))
+                    if not same:
+                        res[i] = {"raised": "the result for this matrix inside a batch differs from its result alone"}
         except Exception:  # noqa: BLE001 - find the offending input(s)
             res = []
             for m in mats:
